@@ -425,14 +425,6 @@ func runC10(e *Env) {
 		subject = newSubject(kind, buf)
 	}
 	clients := sc.Int("clients", 1)
-	type opRec struct {
-		in     subjIn
-		out    subjOut
-		call   int
-		ret    int
-		client int
-		done   bool
-	}
 	recs := make([]*opRec, len(sc.Ops))
 	curOp := map[int]*opRec{} // actor id -> op in progress
 	subs := map[int]ro.Subscription{}
@@ -578,7 +570,22 @@ func runC10(e *Env) {
 		}
 		ops = append(ops, porcupine.Operation{ClientId: r.client, Input: r.in, Call: int64(r.call), Output: r.out, Return: int64(r.ret)})
 	}
-	res := porcupine.CheckOperationsTimeout(model, ops, 20*time.Second)
+	// the linearizability check runs after the bubble: its timeout is real time
+	e.After(func() { c10Linearizable(e, model, ops, recs, kind, buf, mbuf) })
+}
+
+// opRec is one recorded operation of a C10 history.
+type opRec struct {
+	in     subjIn
+	out    subjOut
+	call   int
+	ret    int
+	client int
+	done   bool
+}
+
+func c10Linearizable(e *Env, model porcupine.Model, ops []porcupine.Operation, recs []*opRec, kind string, buf, mbuf int) {
+	res := porcupine.CheckOperationsTimeout(model, ops, 10*time.Second)
 	switch res {
 	case porcupine.Illegal:
 		var sb strings.Builder
@@ -586,7 +593,7 @@ func runC10(e *Env) {
 			fmt.Fprintf(&sb, "[c%d %v @%d-%d -> %s] ", r.client, r.in, r.call, r.ret, r.out.key())
 		}
 		clause := "not-linearizable"
-		if kind == "unicast" && porcupine.CheckOperationsTimeout(subjModel(kind, mbuf, true), ops, 20*time.Second) == porcupine.Ok {
+		if kind == "unicast" && porcupine.CheckOperationsTimeout(subjModel(kind, mbuf, true), ops, 10*time.Second) == porcupine.Ok {
 			clause = "not-linearizable:unicast-backlog-after-termination"
 		}
 		e.Violate("C10", clause, fmt.Sprintf("%s subject (buf %d): history is not linearizable w.r.t. the sequential definition: %s", kind, buf, sb.String()))
